@@ -13,6 +13,7 @@ import (
 // glob matches s against pattern where '*' matches any (possibly empty) run
 // of characters.
 func glob(pattern, s string) bool {
+	pattern, s = depConsts.Replace(pattern), depConsts.Replace(s)
 	parts := strings.Split(pattern, "*")
 	if len(parts) == 1 {
 		return pattern == s
@@ -342,3 +343,103 @@ func (p *Prog) expandFacts(s *Sym, facts []Atom, depth int) []SAtom {
 	}
 	return out
 }
+
+// DeepSite: a call site found in fn or in an in-module helper reachable from
+// it, with the evaluator of the helper (parameters bound to the terms the
+// caller passes) and the chain of calls leading to it.
+type DeepSite struct {
+	Site ssa.CallInstruction
+	S    *Sym
+	Path []ssa.CallInstruction // calls from the entry function down to Site's function
+	Syms []*Sym                // evaluator of each call of Path
+}
+
+// deepSites finds call sites satisfying pred in fn, its closures, and -
+// transitively, to a small depth - the in-module functions it calls
+// statically. follow decides which callees are looked into (nil: all
+// non-anchor helpers, i.e. callees that do not themselves satisfy pred).
+func (p *Prog) deepSites(s *Sym, pred func(name string) bool) []DeepSite {
+	var out []DeepSite
+	var visit func(cs *Sym, f *ssa.Function, path []ssa.CallInstruction, syms []*Sym, depth int)
+	visit = func(cs *Sym, f *ssa.Function, path []ssa.CallInstruction, syms []*Sym, depth int) {
+		var walk func(g *ssa.Function)
+		walk = func(g *ssa.Function) {
+			for _, b := range g.Blocks {
+				for _, in := range b.Instrs {
+					c, ok := in.(ssa.CallInstruction)
+					if !ok {
+						continue
+					}
+					name := calleeName(c.Common())
+					if pred(name) {
+						out = append(out, DeepSite{Site: c, S: cs, Path: append([]ssa.CallInstruction(nil), path...), Syms: append([]*Sym(nil), syms...)})
+						continue
+					}
+					callee := c.Common().StaticCallee()
+					if callee == nil || !InModule(callee) || callee.Blocks == nil || depth >= 4 || g != f {
+						continue
+					}
+					if callee.Object() != nil && callee.Object().Exported() && callee.Signature.Recv() == nil && fnPkgPath(callee) != fnPkgPath(f) {
+						continue // another package's API: its own rules speak for it
+					}
+					rec := false
+					for _, h := range cs.stack {
+						if h == callee {
+							rec = true
+						}
+					}
+					if rec {
+						continue
+					}
+					ch := cs.child(callee)
+					for i, prm := range callee.Params {
+						if i < len(c.Common().Args) {
+							ch.params[prm] = cs.Of(c.Common().Args[i])
+						}
+					}
+					visit(ch, callee, append(path, c), append(syms, cs), depth+1)
+				}
+			}
+			for _, a := range g.AnonFuncs {
+				walk(a)
+			}
+		}
+		walk(f)
+	}
+	visit(s, s.fn, nil, nil, 0)
+	return out
+}
+
+// deepFacts: the branch facts that hold when the deep site executes: those at
+// each call of its path (in the caller's function) and those at the site in
+// its own function, each with its evaluator, expanded through succeeded helper
+// calls.
+func (p *Prog) deepFacts(ds DeepSite) []SAtom {
+	var out []SAtom
+	for i, c := range ds.Path {
+		cs := ds.Syms[i]
+		out = append(out, p.expandFacts(cs, cs.ff.At(c.Block()), 0)...)
+	}
+	if ds.Site.Parent() == ds.S.fn {
+		out = append(out, p.expandFacts(ds.S, ds.S.ff.At(ds.Site.Block()), 0)...)
+	}
+	return out
+}
+
+// depConsts: sizes fixed by the dependencies' group parameters (circl v1.3.7,
+// reviewed: P-384 compressed element 49 bytes / scalar 48; ristretto255 32 /
+// 32). A getter and the literal (or a named constant of the same value) are
+// the same width, so terms and patterns are compared after this rewriting.
+var depConsts = strings.NewReplacer(
+	"conv<int>(call<(github.com/cloudflare/circl/group.Group).Params>(load(global:github.com/cloudflare/circl/group.P384)).CompressedElementLength)", "const:49",
+	"call<(github.com/cloudflare/circl/group.Group).Params>(load(global:github.com/cloudflare/circl/group.P384)).CompressedElementLength", "const:49",
+	"conv<int>(call<(github.com/cloudflare/circl/group.Group).Params>(load(global:github.com/cloudflare/circl/group.P384)).ScalarLength)", "const:48",
+	"call<(github.com/cloudflare/circl/group.Group).Params>(load(global:github.com/cloudflare/circl/group.P384)).ScalarLength", "const:48",
+	"conv<int>(call<(github.com/cloudflare/circl/group.Group).Params>(load(global:github.com/cloudflare/circl/group.Ristretto255)).CompressedElementLength)", "const:32",
+	"conv<int>(call<(github.com/cloudflare/circl/group.Group).Params>(load(global:github.com/cloudflare/circl/group.Ristretto255)).ScalarLength)", "const:32",
+	"conv<int>(call<(github.com/cloudflare/circl/group.Group).Params>(call<(github.com/cloudflare/circl/oprf.Suite).Group>(load(global:github.com/cloudflare/circl/oprf.SuiteRistretto255))).CompressedElementLength)", "const:32",
+	"conv<int>(call<(github.com/cloudflare/circl/group.Group).Params>(call<(github.com/cloudflare/circl/oprf.Suite).Group>(load(global:github.com/cloudflare/circl/oprf.SuiteP384))).CompressedElementLength)", "const:49",
+	"call<(crypto.Hash).Size>(const:6)", "const:48",
+	"call<(crypto.Hash).Size>(const:5)", "const:32",
+	"call<(crypto.Hash).Size>(const:7)", "const:64",
+)
